@@ -20,11 +20,17 @@ COPY = [('copy', 'D50_input', 'D15_input'), ('copy', 'D50_input', 'D85_input'), 
 NUDGE = [('nudge', 'rhom_input', 0.0004), ('nudge', 'Cv_input', 0.0004), ('nudge', 'D50_input', 0.0004), ('nudge', 'rhos_input', -0.0004)]
 
 
+# entries just inside (accepted) and just outside (rejected) each end of every box's documented range
+EDGES = [('edge', w, side, sign) for w in TEXT_WIDGETS for side in ('lo', 'hi') for sign in (-1, 1)]
+
+
 def random_event(rng, keys):
     r = rng.random()
     if r < 0.04:
         return rng.choice(COPY)
-    if r < 0.08:
+    if r < 0.14:
+        return rng.choice(EDGES)
+    if r < 0.18:
         return rng.choice(NUDGE)
     if r < 0.5:
         w = rng.choice(TEXT_WIDGETS)
@@ -51,7 +57,7 @@ def random_event(rng, keys):
 
 
 def sequences(rng, keys, exhaustive_pairs, n_pairs, n_random, depth=15):
-    events = VALID + INVALID + OTHER + COPY + NUDGE + [('pipeline', k) for k in keys]
+    events = VALID + INVALID + OTHER + COPY + NUDGE + EDGES + [('pipeline', k) for k in keys]
     seqs = [(e,) for e in events]
     pairs = [(a, b) for a in events for b in events]
     if exhaustive_pairs:
